@@ -177,3 +177,26 @@ func verifLookupExit(name string) {
 		f(VerifEvent{Ev: "lookup-exit", Name: name, Seq: verifLookupSeq, Loaded: pluginsLoaded})
 	}
 }
+
+var verifPristineTable symbolTable // the function table as it is before any registration
+
+// VerifResetFunctionTable puts the function table and the plugin-load flag
+// back to their state at program start, so that one process can replay
+// several registration histories.  Not safe for concurrent use.
+func VerifResetFunctionTable() {
+	mu.Lock()
+	defer mu.Unlock()
+	if verifPristineTable == nil {
+		verifPristineTable = make(symbolTable, len(xpathFunctionTable))
+		for k, v := range xpathFunctionTable {
+			verifPristineTable[k] = v
+		}
+	}
+	for k := range xpathFunctionTable {
+		delete(xpathFunctionTable, k)
+	}
+	for k, v := range verifPristineTable {
+		xpathFunctionTable[k] = v
+	}
+	pluginsLoaded = false
+}
